@@ -307,6 +307,58 @@ let run_case (h : harness) (c : case) (dist : (string, int) Hashtbl.t) : (string
          fail "property" "fragmentation" (Printf.sprintf "%s :: with one large buffer the bytes are %s, with the given capacities %s" (short cmd) (short one) (short reply))
        else bump dist "monitor:fragmentation-independent")
   end;
+  (* 3. the client path: the client never encodes a user packet that validation has not accepted
+     (submission-time validate_packet_outbound, send-time validate_packet_outbound_internal), so a packet
+     that is NOT valid for the wire specification must either be rejected by one of the two or still
+     come out as a well-formed packet carrying its content *)
+  let user_kind = (match c.pkt with Publish _ | Subscribe _ | Unsubscribe _ | Disconnect _ -> true | _ -> false) in
+  (* only alias resolutions a resolver can produce (C17_*_inv): an alias is >= 1, the topic is skipped only with an alias *)
+  let res_possible = (match c.res.r_alias with Some a -> int_of_n a >= 1 | None -> not c.res.r_skip_topic) in
+  if (not is_valid) && user_kind && res_possible && L.for_all (fun x -> x >= 4) c.caps then begin
+    let p0 = (match c.pkt with
+        | Publish x -> Publish { x with pub_pid = n_of_int 0 }
+        | Subscribe x -> Subscribe { x with s_pid = n_of_int 0 }
+        | Unsubscribe x -> Unsubscribe { x with u_pid = n_of_int 0 }
+        | p -> p) in
+    let s_reply = ask h ("VSTATIC " ^ Ptext.packet_to_text p0) in
+    let d_reply = ask h (Printf.sprintf "VDYN 2 0 65535 268435455 65535 0 1 1 1 1 0 x %d %s CO - 0 - - - - - - - - - - - NOWILL PKT %s"
+                           (if c.res.r_skip_topic then 1 else 0) (match c.res.r_alias with None -> "-" | Some a -> string_of_n a)
+                           (Ptext.packet_to_text c.pkt)) in
+    bump dist ("client-path:static-" ^ (if s_reply = "ok" then "ok" else "rejected"));
+    if s_reply = "ok" && d_reply = "ok" then begin
+      bump dist "client-path:accepted-although-not-valid";
+      (match impl_bytes with
+       | None -> bump dist "client-path:accepted-but-encoder-refused"
+       | Some bs ->
+         let expect = ValidC2S.canon c.v c.res c.pkt in
+         (match SpecDecodeC2S.spec_decode c.v bs with
+          | Some (p, []) when p = expect -> bump dist "client-path:still-well-formed"
+          | _ ->
+            let text = Ptext.packet_to_text c.pkt in
+            let has sub = (let n = String.length sub and m = String.length text in
+                           let rec go i = i + n <= m && (String.sub text i n = sub || go (i + 1)) in go 0) in
+            (* classes of known origin: a U+0000 inside a string field; a malformed $share filter *)
+            (* is a U+0000 the only thing wrong?  replace every 00 byte of every hex token by 01 and ask the specification again *)
+            let denul = (let b = Bytes.of_string text in
+                         let n = Bytes.length b in
+                         let i = ref 0 in
+                         while !i < n do
+                           if Bytes.get b !i = 'x' then begin
+                             incr i;
+                             let is_hex ch = (ch >= '0' && ch <= '9') || (ch >= 'a' && ch <= 'f') in
+                             while !i + 1 < n && is_hex (Bytes.get b !i) && is_hex (Bytes.get b (!i + 1)) do
+                               if Bytes.get b !i = '0' && Bytes.get b (!i + 1) = '0' then Bytes.set b (!i + 1) '1';
+                               i := !i + 2
+                             done
+                           end else incr i
+                         done; Bytes.to_string b) in
+            let only_nul = denul <> text && (try ValidC2S.valid c.v c.res (Ptext.packet_of_text denul) with _ -> false) in
+            let cls = if only_nul then "nul" else if has "2473686172652f" then "share" else "other" in
+            fail "property" ("client-accepts-malformed:" ^ cls)
+              (Printf.sprintf "%s :: accepted by validate_packet_outbound and validate_packet_outbound_internal, but the emitted bytes %s are not a well-formed packet carrying [%s]"
+                 (short cmd) (short (hex_of_bytes bs)) (short (Ptext.packet_to_text expect)))))
+    end
+  end;
   (L.rev !fails, calls, is_valid && calls >= 2)
 
 (* corpus lines: <version> <skip> <alias|-> [caps] [prefills] <packet text>;  '#' starts a comment line *)
